@@ -46,6 +46,10 @@ type Network struct {
 	DialCount   int
 	AcceptCount int
 	down        bool
+	dgramTapOn  bool
+	dgramTap    []byte
+	// TapNew records everything written on stream links created from now on.
+	TapNew bool
 	// Activity receives a token whenever something new may be deliverable
 	// (a write, a close, a datagram, a connect). The driver sleeps on it.
 	Activity chan struct{}
@@ -309,8 +313,8 @@ func (n *Network) newPair(network string, laddr, raddr net.Addr, key string) (*C
 	a.ID = n.nextID
 	n.nextID++
 	b.ID = n.nextID
-	ab := &Link{From: a, To: b, cap: n.DefaultCap}
-	ba := &Link{From: b, To: a, cap: n.DefaultCap}
+	ab := &Link{From: a, To: b, cap: n.DefaultCap, tapOn: n.TapNew}
+	ba := &Link{From: b, To: a, cap: n.DefaultCap, tapOn: n.TapNew}
 	n.nextID++
 	ab.ID = n.nextID
 	n.nextID++
